@@ -78,6 +78,7 @@ def check_proc(a: ATS, pid: str, rule: str, proc: Proc, ev: Evidence, out: list[
     h = a.h
     seen: set[str] = set()
     n_choice = 0
+    fault_edges: list[Any] = []
 
     def rep(k: str, ok: bool, e: Any, msg: str, site: str = "") -> None:
         if (k, ok) in seen:
@@ -157,6 +158,14 @@ def check_proc(a: ATS, pid: str, rule: str, proc: Proc, ev: Evidence, out: list[
                     else:
                         rep("limit not reached => count incremented", bool(incs) or not idx["expired"] or _completed(evs), e,
                             "the timer expired below the limit but the count is not incremented")
+        if idx["expired"] and any(x.kind == "env" and x.name.startswith("fault.") and ename(x.args[1]) == proc.fault for x in evs):
+            fault_edges.append(e)
+    # the limit fault must depend on the CONFIGURED limit: some expiry edge of the procedure carries a recorded comparison with it
+    if fault_edges and n_choice == 0:
+        rep(f"the limit fault is declared on {len(fault_edges)} edges but no expiry decision compares anything with {proc.limit}", False, fault_edges[0],
+            f"the {proc.fault} fault is declared after a number of expiries that does not depend on the configured {proc.limit} (the decision uses another value)")
+    elif fault_edges:
+        rep(f"the limit decision depends on the configured {proc.limit}", True, fault_edges[0], "")
     return None
 
 
